@@ -39,6 +39,12 @@ type C07Case struct {
 	// function of the connection genes only, for both methods
 	ModsA int `json:"modules_a,omitempty"`
 	ModsB int `json:"modules_b,omitempty"`
+	// Base: offset added to every innovation number (populations that have lived long, numbers beyond 32 and 53 bits)
+	Base int64 `json:"innovation_base,omitempty"`
+	// Again: after the comparisons the mutation numbers of a's genes (and of a duplicate of b) are overwritten in place with
+	// these values (cycled) - what weight mutation does to a genome between two speciations - and the same genome objects are
+	// compared once more: the distance is a function of the genes as they are now
+	Again []float64 `json:"mutation_numbers_afterwards,omitempty"`
 }
 
 func genMutNum() *rapid.Generator[float64] {
@@ -176,6 +182,18 @@ func GenC07() *rapid.Generator[C07Case] {
 		if rapid.IntRange(0, 5).Draw(t, "arena") == 0 {
 			c.Arena = rapid.IntRange(1, 2).Draw(t, "arena order")
 		}
+		if rapid.IntRange(0, 3).Draw(t, "large innovation numbers") == 0 {
+			c.Base = rapid.SampledFrom([]int64{1<<31 - 40, 1 << 32, 1<<53 - 7, 1 << 62}).Draw(t, "base")
+			for i := range c.A {
+				c.A[i].Innov += c.Base
+			}
+			for i := range c.B {
+				c.B[i].Innov += c.Base
+			}
+		}
+		if rapid.IntRange(0, 2).Draw(t, "compared again after a weight mutation") == 0 {
+			c.Again = rapid.SliceOfN(genMutNum(), 1, 6).Draw(t, "mutation numbers afterwards")
+		}
 		return c
 	})
 }
@@ -183,10 +201,11 @@ func GenC07() *rapid.Generator[C07Case] {
 // compatGenome builds a well-formed genome whose gene list carries the given innovation / mutation numbers: gene
 // with innovation v joins the input node 1 with the hidden node 100+v, so equal innovation numbers denote equal links.
 func compatGenome(id int, list []innovMut, alt ...int) *genetics.Genome {
-	return compatGenomeMods(id, list, 0, alt...)
+	return compatGenomeMods(id, list, 0, 0, alt...)
 }
 
-func compatGenomeMods(id int, list []innovMut, mods int, alt ...int) *genetics.Genome {
+// base: the offset that was added to every innovation number (node ids are derived from the numbers without it)
+func compatGenomeMods(id int, list []innovMut, mods int, base int64, alt ...int) *genetics.Genome {
 	s := GenomeSpec{Id: id, Traits: []TraitSpec{{Id: 1, Params: make([]float64, neat.NumTraitParams)}}}
 	s.Nodes = append(s.Nodes, NodeSpec{Id: 1, Role: roleInput, Act: 17, Trait: 1}, NodeSpec{Id: 2, Role: roleOutput, Act: 4, Trait: 1})
 	other := map[int]bool{}
@@ -194,8 +213,9 @@ func compatGenomeMods(id int, list []innovMut, mods int, alt ...int) *genetics.G
 		other[i] = true
 	}
 	for i, x := range list {
-		s.Nodes = append(s.Nodes, NodeSpec{Id: 100 + int(x.Innov), Role: roleHidden, Act: 4, Trait: 1})
-		g := GeneSpec{In: 1, Out: 100 + int(x.Innov), W: x.Mut, Innov: x.Innov, Mut: x.Mut, En: true, Trait: 1}
+		hid := 100 + int(x.Innov-base)
+		s.Nodes = append(s.Nodes, NodeSpec{Id: hid, Role: roleHidden, Act: 4, Trait: 1})
+		g := GeneSpec{In: 1, Out: hid, W: x.Mut, Innov: x.Innov, Mut: x.Mut, En: true, Trait: 1}
 		if i%3 == 1 { // a gene without a trait whose weight differs from its mutation number
 			g.Trait, g.W = 0, 0.5*x.Mut+1
 			if math.IsInf(g.W, 0) {
@@ -203,7 +223,7 @@ func compatGenomeMods(id int, list []innovMut, mods int, alt ...int) *genetics.G
 			}
 		}
 		if other[i] { // the same innovation number on another link: from the hidden node to the output, flagged recurrent
-			g.In, g.Out, g.Rec = 100+int(x.Innov), 2, true
+			g.In, g.Out, g.Rec = hid, 2, true
 		}
 		s.Genes = append(s.Genes, g)
 	}
@@ -228,7 +248,10 @@ func checkDistance(name string, got, ref float64) error {
 }
 
 func CheckC07(c C07Case, rec *Rec) error {
-	a, b := compatGenomeMods(c.IdA, c.A, c.ModsA, c.AltA...), compatGenomeMods(c.IdB, c.B, c.ModsB, c.AltB...)
+	a, b := compatGenomeMods(c.IdA, c.A, c.ModsA, c.Base, c.AltA...), compatGenomeMods(c.IdB, c.B, c.ModsB, c.Base, c.AltB...)
+	if c.Base > 0 {
+		rec.Class("innovation numbers beyond 31 bits")
+	}
 	if c.ModsA != c.ModsB {
 		rec.Class("genomes with different numbers of modules")
 	}
@@ -352,6 +375,47 @@ func CheckC07(c C07Case, rec *Rec) error {
 	lin, fast := a.VerifCompatLinear(b, opts), a.VerifCompatFast(b, opts)
 	if math.IsNaN(lin) || math.IsNaN(fast) || !approxEq(lin, fast, 1e-9) {
 		return fmt.Errorf("the two methods disagree: linear=%v fast=%v (formula %v)", lin, fast, ref)
+	}
+	if len(c.Again) > 0 {
+		// the same genome objects after a weight mutation: a's mutation numbers are overwritten in place, and so are those of a
+		// duplicate of b that was just found to be at distance 0 from b
+		rec.Class("same genome objects compared again after their mutation numbers changed in place")
+		a2 := append([]innovMut(nil), c.A...)
+		for i, gn := range a.Genes {
+			gn.MutationNum = c.Again[i%len(c.Again)]
+			a2[i].Mut = gn.MutationNum
+		}
+		dup, err := b.VerifDuplicate(98)
+		if err != nil {
+			return fmt.Errorf("duplicate failed: %v", err)
+		}
+		opts.GenCompatMethod = neat.GenomeCompatibilityMethodLinear
+		if dd := b.VerifCompatibility(dup, opts); dd != 0 {
+			return fmt.Errorf("distance of a genome to its duplicate is %v, not 0", dd)
+		}
+		d2 := append([]innovMut(nil), c.B...)
+		for i, gn := range dup.Genes {
+			gn.MutationNum = c.Again[(i+1)%len(c.Again)]
+			d2[i].Mut = gn.MutationNum
+		}
+		_, _, _, w2 := RefCompatParts(c.B, d2)
+		e3, d3, m3, w3 := RefCompatParts(a2, c.B)
+		refAB := c.Excess*float64(e3) + c.Disjoint*float64(d3) + c.Mutdiff*w3
+		for _, method := range []neat.GenomeCompatibilityMethod{neat.GenomeCompatibilityMethodLinear, neat.GenomeCompatibilityMethodFast} {
+			opts.GenCompatMethod = method
+			if err := checkDistance(fmt.Sprintf("%s d(b, its duplicate after the duplicate's mutation numbers changed) [M=%d W=%v]", method, len(c.B), w2),
+				b.VerifCompatibility(dup, opts), c.Mutdiff*w2); err != nil {
+				return err
+			}
+			if err := checkDistance(fmt.Sprintf("%s d(a,b) after a's mutation numbers changed in place [E=%d D=%d M=%d W=%v]", method, e3, d3, m3, w3),
+				a.VerifCompatibility(b, opts), refAB); err != nil {
+				return err
+			}
+			if err := checkDistance(fmt.Sprintf("%s d(b,a) after a's mutation numbers changed in place [E=%d D=%d M=%d W=%v]", method, e3, d3, m3, w3),
+				b.VerifCompatibility(a, opts), refAB); err != nil {
+				return err
+			}
+		}
 	}
 	return nil
 }
